@@ -525,6 +525,14 @@ def extract_py_rendering(repo):
     return out
 
 
+def extract_graph_validates(repo):
+    """does DependencyGraph.get_ordered check its result and raise when an order is impossible?"""
+    tree = ast.parse(_src(repo, 'django_evolution/utils/graph.py'))
+    cls = _find_class(tree, 'DependencyGraph')
+    fn = _find_func(cls, 'get_ordered')
+    return any(isinstance(n, ast.Raise) for n in ast.walk(fn))
+
+
 def regenerate(repo, outdir):
     os.makedirs(outdir, exist_ok=True)
     flags = {}
@@ -554,6 +562,11 @@ def regenerate(repo, outdir):
     parts.append('/-- `QSerialization.child_separators` (django_evolution/serialization.py) -/')
     parts.append('def qSeparators : List (String × String) := ' + lean_list(
         '(%s, %s)' % (lean_str(k), lean_str(v)) for k, v in seps))
+    gv = extract_graph_validates(repo)
+    flags['graph_validates'] = gv
+    parts.append('')
+    parts.append('/-- DependencyGraph.get_ordered raises when its result is incomplete or violates a dependency -/')
+    parts.append('def graphValidates : Bool := ' + ('true' if gv else 'false'))
     pyr = extract_py_rendering(repo)
     flags['py_rendering'] = pyr
     parts.append('/-- the single-child branch of QSerialization.serialize_to_python passes a Q child positionally and keeps a non-default connector -/')
